@@ -347,7 +347,7 @@ def run(rep, tier):
     rep.rule("R2", "exception entry = (2*v0, 2*v0 + 2*v1, 2*v2, v3 >> 1, bool(v3 & 1)) from four consecutive varints")
     rep.rule("R3", "location entries: length = (b & 7) + 1 code units; code = (b >> 3) & 15; short / one-line / no-column / long / none forms per locations.md; "
                    "varints little-endian 6-bit with continuation 64; signed = zig-zag; long form columns are stored + 1")
-    rep.rule("R4", "the listing prints end - 2 (inclusive end) for each exception entry")
+    rep.rule("R4", "the listing prints end - 2 (inclusive end) for each exception entry; three listings rendered one after the other (concrete entries, folded) each show exactly the rows of their own entries")
     rep.rule("R5", "co_lines(): a code unit whose line (or no-line status) differs from the open range closes that range; every range is emitted as "
                    "(start, end, None if no-line else line); the running line accumulates every delta")
     T = tables()
@@ -433,6 +433,34 @@ def run(rep, tier):
     sp.run(fet, [bco, (3, 12)])
     txt = " ".join(show(e.args[2]) for k, e in flatten_effects(sp.effects) if k == "mutate")
     rep.ob("R4", fet.qualname, "prints-end-minus-2", "'end') + -2" in txt or "-2 + attr(" in txt, expected="entry.end - 2", derived=txt[:200])
+    # the rendered rows, decided on concrete entries: two listings in a row, each must show exactly its own entries (dis._print_exception_table's row format)
+    import copy as _copy
+    E_ = F.modules["xdis.bytecode"].ns.get("_ExceptionTableEntry")
+    B_ = F.modules["xdis.bytecode"].ns.get("Bytecode")
+    if not (isinstance(E_, type) and isinstance(B_, ClassRef)):
+        raise AnalysisError("anchor vanished: xdis.bytecode._ExceptionTableEntry / Bytecode")
+    cd_ns = F.modules["xdis.cross_dis"].ns
+    saved_ns = {k_: _copy.copy(v_) for k_, v_ in cd_ns.items() if isinstance(v_, (list, dict, set))}
+    listings = [[(10, 20, 30, 1, True), (40, 44, 50, 0, False)], [(6, 8, 12, 3, False)], [(10, 20, 30, 1, True), (40, 44, 50, 0, False)]]
+    try:
+        for i_, ents in enumerate(listings):
+            bc_ = Instance(B_)
+            bc_.attrs["exception_entries"] = [E_(*e_) for e_ in ents]
+            want_txt = "\n".join(["ExceptionTable:"] + ["  %d to %d -> %d [%d]%s" % (st_, en_ - 2, tg_, dp_, " lasti" if la_ else "") for st_, en_, tg_, dp_, la_ in ents])
+            try:
+                got_txt = F.apply(fet, [bc_, (3, 12)], {})
+            except Exception as ex:
+                got_txt = "not evaluable: %s" % ex
+            rep.ob("R4", fet.qualname, "rows:listing-%d-of-%d-in-one-process" % (i_ + 1, len(listings)), got_txt == want_txt, expected=want_txt, derived=got_txt,
+                   msg="the ExceptionTable section of listing %d (after %d earlier listings) is %r, not the rows of its own entries %r" % (i_ + 1, i_, got_txt, want_txt))
+    finally:
+        for k_, v_ in saved_ns.items():
+            cur = cd_ns.get(k_)
+            if isinstance(cur, list):
+                cur[:] = v_
+            elif isinstance(cur, (dict, set)):
+                cur.clear()
+                cur.update(v_)
     # the table is rendered for every version tuple the loader produces for a 3.11+ magic (2- and 3-component tuples both occur), and for none before
     from .marshal_rules import accepted_magics
     shapes = {}
